@@ -2143,7 +2143,8 @@ func writeDescriptor(w *astikit.BitsWriter, d *Descriptor) (int, error) {
 
 	written := int(length) + 2
 
-	if d.Length == 0 {
+	// the body is announced by the computed length, not by the informative d.Length
+	if length == 0 {
 		return written, nil
 	}
 
